@@ -126,7 +126,22 @@ var ruleAddenda10 = map[string]string{
 	"C20": "cr/streaming-peer (the peer never sends its Close frame and keeps sending a frame every 4 s for 24 s) and cr/writer-closed-twice (a message writer closed twice earlier in the connection's life).",
 }
 
+var ruleAddenda11 = map[string]string{
+	"C03": "Part bystander (C01's cases under C03's clause on the receiving connection); s.parked: a Ping or Write of another goroutine is parked in the transport while the peer's [Pong][Text] arrives: the message is delivered at once.",
+	"C05": "Prefilled-pool read programs (readers that start from pools filled by an earlier connection); race units for closers racing the first CloseRead.",
+	"C06": "midread shapes large / many-large: Close with more unread data in flight than the read limit, then the peer's echo.",
+	"C07": "wconc-closeframe: A is closed by a handshake while its compressed writer waits behind a Ping parked in the transport; B is opened as soon as A's Close frame is out.",
+	"C08": "API reader0 (a Read with an empty buffer first); part afterexact: a compressed message read by its exact length (no EOF asked), then a compressed message of 1000 .. 2^20 zero bytes.",
+	"C09": "States closeframe-midmessage (the peer's Close frame between the fragments of a message that is being read) and reread-after-eof (a finished message's reader asked again), also on compressed connections.",
+	"C10": "s.nettransport: the transport is a net.Conn with deadlines of its own (virtual time); calls under contexts with deadlines succeed, the deadlines pass, later calls with live contexts succeed.",
+	"C15": "Part buffered: a Pong behind 0..8000 unflushed bytes of an open streamed message (around the end of the 4096-byte write buffer), ping payloads 0..125; s.giveup: the WG history judged for control frames.",
+	"C20": "cr/stuck-closeframe: the CloseRead goroutine's policy-violation Close frame is stuck in the transport; the application calls Close.",
+}
+
 func init() {
+	for id, add := range ruleAddenda11 {
+		ruleAddenda10[id] += " " + add
+	}
 	for id, add := range ruleAddenda10 {
 		ruleAddenda9[id] += " " + add
 	}
